@@ -308,12 +308,13 @@ def run_parent(args):
 
     # ---- replay files + lines
     lines = []
-    os.makedirs(os.path.join(HERE, 'replays'), exist_ok=True)
+    replay_dir = os.environ.get('VERIF_REPLAYS') or os.path.join(HERE, 'replays')     # scratch runs keep theirs elsewhere
+    os.makedirs(replay_dir, exist_ok=True)
     seen_paths = set()
     for v in violations:
         blob = json.dumps(v, sort_keys=True).encode()
         name = '%s-%s.json' % (prop, hashlib.blake2b(blob, digest_size=6).hexdigest())
-        path = os.path.join(HERE, 'replays', name)
+        path = os.path.join(replay_dir, name)
         if path in seen_paths:
             continue
         seen_paths.add(path)
